@@ -101,6 +101,7 @@ def make_threading_ns(S):
             setattr(ns, k, getattr(_real, k))
     ns.Semaphore = lambda value=1: MSemaphore(S, value)
     ns.BoundedSemaphore = lambda value=1: MSemaphore(S, value, bounded=True)
+    ns.Event = lambda: MEvent(S)
 
     def Lock():
         # the item lock is created in _ItemTaskManager.__init__(self, <item name>, ...): tag it with the first
@@ -196,6 +197,37 @@ class MQueue:
         return len(self.items)
 
 
+class MEvent:
+    """threading.Event under the scheduler: set / clear are followed by a preemption point (of the kind the label mappings ignore),
+    wait blocks until the flag is set — or, given a timeout, may return at any time (a timeout can always elapse)"""
+
+    def __init__(self, S):
+        self.S = S
+        self.flag = False
+
+    def is_set(self):
+        return self.flag
+
+    isSet = is_set
+
+    def set(self):
+        # (the preemption point comes AFTER the operation, as for a lock release: the flag changes in the region that
+        # performs the call, which is where the connection-level model puts it)
+        self.flag = True
+        self.S.yield_('clock', ('event-set',))
+
+    def clear(self):
+        self.flag = False
+        self.S.yield_('clock', ('event-clear',))
+
+    def wait(self, timeout=None):
+        if timeout is None:
+            self.S.yield_('clock', ('event-wait',), cond=lambda: self.flag)
+        else:
+            self.S.yield_('clock', ('event-wait', timeout))
+        return self.flag
+
+
 class Clock:
     def __init__(self, now=1700000000.0, S=None):
         self.now = now
@@ -240,7 +272,13 @@ class MThreadHandle:
 
     def join(self, timeout=None):
         mt = self.mt
-        self.fac.S.yield_('join', self.name, cond=lambda: mt is None or mt.state == 'dead')
+        if timeout is None:
+            self.fac.S.yield_('join', self.name, cond=lambda: mt is None or mt.state == 'dead')
+        else:
+            # a join with a timeout gives up when the thread does not end in time: here, whenever the thread is about to
+            # write to the socket (the peer may be slow for as long as it likes) — never while it merely waits for work
+            self.fac.S.yield_('join', self.name, cond=lambda: mt is None or mt.state == 'dead' or
+                              (mt.state == 'parked' and mt.pending and mt.pending[0] == 'send'))
 
     def is_alive(self):
         return self.mt is not None and self.mt.state != 'dead'
@@ -547,7 +585,9 @@ def install(S, chunks=(), end='block', fail_send=None, cpu=8, cpu_raises=False):
     env.queues = []
     env.threads = ThreadShimFactory(S)
     MExecutor.instances = []
-    saved_server = {n: getattr(server, n) for n in ('queue', 'Thread', 'ThreadPoolExecutor', 'create_socket_and_connect', 'time', 'os', 'cpu_count')}
+    # (a module global that a rewrite no longer binds is not re-created: what used it is then whatever the rewrite uses)
+    saved_server = {n: getattr(server, n) for n in ('queue', 'Thread', 'ThreadPoolExecutor', 'create_socket_and_connect', 'time', 'os', 'cpu_count')
+                    if hasattr(server, n)}
     saved_threading = subscription.threading
 
     def mkqueue(maxsize=0):
@@ -564,13 +604,10 @@ def install(S, chunks=(), end='block', fail_send=None, cpu=8, cpu_raises=False):
         if cpu_raises:
             raise NotImplementedError()
         return cpu
-    server.queue = qns
-    server.Thread = env.threads
-    server.ThreadPoolExecutor = lambda *a, **k: MExecutor(S, *a, **k)
-    server.create_socket_and_connect = connect
-    server.time = env.clock
-    server.os = env.os
-    server.cpu_count = fake_cpu
+    for n, v in (('queue', qns), ('Thread', env.threads), ('ThreadPoolExecutor', lambda *a, **k: MExecutor(S, *a, **k)),
+                 ('create_socket_and_connect', connect), ('time', env.clock), ('os', env.os), ('cpu_count', fake_cpu)):
+        if n in saved_server:
+            setattr(server, n, v)
     subscription.threading = make_threading_ns(S)
     # any other blocking primitive of the threading module that a library module has bound (`import threading`,
     # `from threading import Lock, Semaphore, ...`) is replaced by its scheduler-aware stand-in as well
@@ -593,9 +630,20 @@ def install(S, chunks=(), end='block', fail_send=None, cpu=8, cpu_raises=False):
                 new = tns.Semaphore
             elif val is _real.BoundedSemaphore:
                 new = tns.BoundedSemaphore
+            elif val is _real.Event:
+                new = lambda: MEvent(S)
             if new is not None:
                 rebound.append((mod, name, val))
                 setattr(mod, name, new)
+    # the point where a message is handed to the writer, whatever the writer keeps its backlog in: recorded as 'send-msg'
+    # events (the oracles fall back on them when the backlog is not the queue stand-in, e.g. after a rewrite of _Sender)
+    sender_cls = getattr(server, '_Sender', None)
+    orig_send = getattr(sender_cls, 'send', None) if sender_cls is not None else None
+    if orig_send is not None:
+        def spy_send(self_, message, *a, **k):
+            _ev(S, 'send-msg', message)
+            return orig_send(self_, message, *a, **k)
+        sender_cls.send = spy_send
     saved_classes = (subscription._ItemTaskManager, subscription.SubscriptionManager, server.SubscriptionManager)
     env.lock_violations = []
     traced_itm, traced_sm = make_traced(S, env, subscription._ItemTaskManager, subscription.SubscriptionManager)
@@ -605,6 +653,8 @@ def install(S, chunks=(), end='block', fail_send=None, cpu=8, cpu_raises=False):
     try:
         yield env
     finally:
+        if orig_send is not None:
+            sender_cls.send = orig_send
         for n, v in saved_server.items():
             setattr(server, n, v)
         subscription.threading = saved_threading
